@@ -31,7 +31,7 @@ SUFFIXES = ["", "#", ["a"], ["0"], ["~", "/"], ["é", ""], ["m~n", "a/b", "10"],
 
 
 def plan(tier, seed):
-    specs = [{"kind": "exhaustive", "first": t} for t in ALPHABET] + [{"kind": "exhaustive", "first": None}, {"kind": "syntax"}, {"kind": "backslash"}, {"kind": "flags"}, {"kind": "magnitude"}, {"kind": "digit-lookalikes"}, {"kind": "threads", "rounds": 40 if tier == "quick" else 400}]
+    specs = [{"kind": "exhaustive", "first": t} for t in ALPHABET] + [{"kind": "exhaustive", "first": None}, {"kind": "syntax"}, {"kind": "backslash"}, {"kind": "flags"}, {"kind": "int-digit-limit"}, {"kind": "magnitude"}, {"kind": "digit-lookalikes"}, {"kind": "threads", "rounds": 40 if tier == "quick" else 400}]
     for _ in range(4 if tier == "quick" else 14):
         specs.append({"kind": "depth3", "n": 6000 if tier == "quick" else 200000})
     return specs
@@ -51,6 +51,8 @@ def check(ctx, base, steps, offset, suffix, all_routes=False):
     text = rel_text(steps, offset, suffix)
     base_text = rp.encode(base)
     case = {"base": list(base), "steps": steps, "offset": offset, "suffix": suffix}
+    if getattr(ctx, "_int_digit_limit", None) is not None:
+        case["int_digit_limit"] = ctx._int_digit_limit
     ctx.evaluation()
     try:
         toks, marker = rp.rel_apply(list(base), steps, offset, suffix)
@@ -156,6 +158,25 @@ def run(spec, ctx):
             suffix = r.choice(SUFFIXES)
             ctx.case(h(base, steps, offset, suffix))
             check(ctx, base, steps, offset, suffix)
+    elif spec["kind"] == "int-digit-limit":
+        # the interpreter's int/str digit limit is process state a host application may have changed (0 = off, 640 = its
+        # minimum, a large value): relative pointers parse, print and apply as the draft says all the same
+        import sys
+
+        old_limit = sys.get_int_max_str_digits()
+        try:
+            for limit in (0, 640, 100000, old_limit):
+                sys.set_int_max_str_digits(limit)
+                ctx._int_digit_limit = limit
+                for depth in (1, 2, 3):
+                    for base in ([("a", "1", "b")[:depth]] + [tuple(r.choice(ALPHABET) for _ in range(depth)) for _ in range(6)]):
+                        for steps, offset, suffix in list(all_params(depth))[::3]:
+                            check(ctx, tuple(base), steps, offset, suffix)
+                            ctx.count("applications_under_another_int_digit_limit")
+                ctx.cell("int_digit_limits", "limit=%s" % limit)
+        finally:
+            sys.set_int_max_str_digits(old_limit)
+            ctx._int_digit_limit = None
     elif spec["kind"] == "magnitude":
         # indices and offsets around and beyond 2^53 and 2^63/2^64: the draft bounds neither
         from jsonpath import JSONPointer
@@ -376,5 +397,14 @@ def replay(case, ctx):
         run({"kind": "threads", "rounds": 150}, ctx)
     elif "from_parts_index" in case or "from_parts" in case:
         run({"kind": "magnitude"}, ctx)
+    elif "int_digit_limit" in case:
+        import sys
+
+        old_limit = sys.get_int_max_str_digits()
+        try:
+            sys.set_int_max_str_digits(case["int_digit_limit"])
+            check(ctx, tuple(case["base"]), case["steps"], case["offset"], case["suffix"])
+        finally:
+            sys.set_int_max_str_digits(old_limit)
     else:
         check(ctx, tuple(case["base"]), case["steps"], case["offset"], case["suffix"], all_routes=True)
